@@ -21,6 +21,7 @@ type CheckSpec struct {
 	Explanation string    `json:"explanation"`
 	Assumptions []string  `json:"assumptions"`
 	Jobs        []JobSpec `json:"jobs"`
+	Instrument  []string  `json:"instrument"` // module-relative files compiled against zzsync instead of sync
 }
 
 type JobSpec struct {
@@ -181,6 +182,7 @@ func cmdCheck(args []string) int {
 			jobs = append(jobs, j)
 		}
 	}
+	instrumentFiles = spec.Instrument
 	loaded := map[string]*Loaded{}
 	needGen := map[string]bool{}
 	for _, j := range jobs {
